@@ -15,7 +15,7 @@ def rows : List (String × Row) := [
   ("SrcDTag", { sig := [Ty.string, Ty.string], stack := .sourceStack, dtag := .param 1, src := .param 0, msg := .empty, err := .nil, shortCircuit := false }),
   ("SrcMsg", { sig := [Ty.string, Ty.string, Ty.variadicAny], stack := .sourceStack, dtag := .empty, src := .param 0, msg := .sprintf 1 2, err := .nil, shortCircuit := false }),
   ("DTagMsg", { sig := [Ty.string, Ty.string, Ty.variadicAny], stack := .sourceStack, dtag := .param 0, src := .empty, msg := .sprintf 1 2, err := .nil, shortCircuit := false }),
-  ("SrcS", { sig := [Ty.string], stack := .defaultStack, dtag := .empty, src := .empty, msg := .empty, err := .nil, shortCircuit := false }),
+  ("SrcS", { sig := [Ty.string], stack := .defaultStack, dtag := .empty, src := .param 0, msg := .empty, err := .nil, shortCircuit := false }),
   ("DTagS", { sig := [Ty.string], stack := .defaultStack, dtag := .param 0, src := .empty, msg := .empty, err := .nil, shortCircuit := false }),
   ("MsgS", { sig := [Ty.string, Ty.variadicAny], stack := .defaultStack, dtag := .empty, src := .empty, msg := .sprintf 0 1, err := .nil, shortCircuit := false }),
   ("SrcDTagMsgS", { sig := [Ty.string, Ty.string, Ty.string, Ty.variadicAny], stack := .defaultStack, dtag := .param 1, src := .param 0, msg := .sprintf 2 3, err := .nil, shortCircuit := false }),
